@@ -15,7 +15,7 @@ let modes = [M.MNone; M.MZod]
 let of_ostr = function None -> Atom "<none>" | Some s -> of_str s
 
 let () =
-  (* (rty mapping (with-text x10) (without-text x10)) -> (tts dom mentions ((model-text ok (classes)) x10)) *)
+  (* (rty mapping (with-text x10) (without-text x10)) -> (tts dom mentions ((model-text ok absolute-clause (classes)) x10)) *)
   Registry.register "emit" (fun s ->
     match list s with
     | [t; m; w; wo] ->
@@ -28,7 +28,7 @@ let () =
           List.iter (fun si ->
             let wi = explode (List.nth w !i) and woi = explode (List.nth wo !i) in
             incr i;
-            res := List [of_ostr (M.c18_emit si md m t); of_bool (M.c18_oracle si md m t wi woi);
+            res := List [of_ostr (M.c18_emit si md m t); of_bool (M.c18_oracle si md m t wi woi); of_bool (M.c18_abs si md m t wi);
                          List []] :: !res) sites) modes;   (* no class left after the repairs *)
         List [of_str (M.c18_tts t); of_bool (M.c18_dom m t); of_bool (M.c18_mentions m t); List (List.rev !res)]
     | _ -> failwith "c18-emit: bad case")
